@@ -24,7 +24,7 @@ def run(ctx):
     import random
     random.Random(ctx.seed).shuffle(derived)
     derived = sorted(derived, key=lambda b: len(b['calls']))[:400 if tier == 'quick' else 3000]       # shortest first, then a seeded sample
-    ac.judge_all(ctx, behs, 'compiled model after read-only operations', cap=1500 if ctx.tier == "quick" else 25000, always=derived)
+    ac.judge_all(ctx, behs, 'compiled model after read-only operations', cap=1500 if ctx.tier == "quick" else 10000, always=derived)
     hierarchy(ctx)
     for b in behs[len(behs) // 2: len(behs) // 2 + 2]:
         ctx.sample(dict(calls=b['calls'], expected_units=b['expM'], dev=b['dev']))
